@@ -789,3 +789,10 @@ Proof.
   intros H. destruct (set_less p b a) eqn:E; [|done].
   pose proof (set_less_trans p a b a H E) as H0. by rewrite set_less_irrefl in H0.
 Qed.
+
+Lemma hyps_satisfiable :
+  ∃ t o from cnt, topo_wf t ∧ orders_ok o ∧ from ⊆ online t ∧ 0 < cnt <= sz from.
+Proof.
+  exists ex_topo, id_orders, {[0%N]}, 1. split; [apply ex_topo_wf|]. split; [apply id_orders_ok|].
+  split; [apply (bool_decide_unpack _); by vm_compute|]. by vm_compute.
+Qed.
